@@ -71,4 +71,73 @@ theorem nRun_le_nLoop_sum (l : List Th) (h : ∀ th ∈ l, Shape th.stack) : sum
     have := (shape_counts (h x (by simp))).1
     have := ih (fun t ht => h t (by simp [ht]))
     simp [nRunT, nLoopT] at *; omega
+
+/-- no immediate item is gathered before a timed item that is due earlier -/
+def CrossOk (a b : Item) : Prop := ¬ (a.imm = true ∧ b.imm = false ∧ b.due < a.due)
+
+theorem takeWhile_all {α} (p : α → Bool) (l : List α) : ∀ x ∈ l.takeWhile p, p x = true := by
+  induction l with
+  | nil => simp
+  | cons y ys ih =>
+    intro x hx
+    by_cases h : p y = true
+    · simp [List.takeWhile_cons, h] at hx
+      rcases hx with rfl | hx
+      · exact h
+      · exact ih x hx
+    · simp [List.takeWhile_cons, h] at hx
+
+theorem merge_cross (t : Int) (qs rl : List Item) (hr : ∀ r ∈ rl, r.imm = true) (hq : ∀ q ∈ qs, q.imm = false)
+    (hs : qs.Pairwise (fun a b => a.due ≤ b.due)) : (merge t qs rl).1.Pairwise CrossOk := by
+  induction qs generalizing rl with
+  | nil =>
+    simp only [merge]
+    apply List.Pairwise.imp_of_mem (R := fun _ _ => True)
+    · intro a b _ hb _ h; have := hr b hb; simp [this] at h
+    · exact List.pairwise_of_forall (fun _ _ => trivial)
+  | cons q qs ih =>
+    have hq0 : q.imm = false := hq q (by simp)
+    have hqs : ∀ x ∈ qs, x.imm = false := fun x hx => hq x (by simp [hx])
+    rw [List.pairwise_cons] at hs
+    have hA : ∀ r ∈ rl.takeWhile (fun r => decide (q.due > r.due)), r.imm = true ∧ r.due < q.due := by
+      intro r hx
+      refine ⟨hr r ((List.takeWhile_sublist _).subset hx), ?_⟩
+      have := takeWhile_all _ _ r hx
+      simpa using this
+    have hD : ∀ r ∈ rl.dropWhile (fun r => decide (q.due > r.due)), r.imm = true :=
+      fun r hx => hr r ((List.dropWhile_sublist _).subset hx)
+    simp only [merge]
+    split
+    · -- break: only immediate items gathered
+      apply List.Pairwise.imp_of_mem (R := fun _ _ => True)
+      · intro a b _ hb _ h
+        have : b.imm = true := by
+          simp only [List.mem_append] at hb
+          rcases hb with hb | hb
+          · exact (hA b hb).1
+          · exact hD b hb
+        simp [this] at h
+      · exact List.pairwise_of_forall (fun _ _ => trivial)
+    · have ihh := ih _ hD hqs hs.2
+      obtain ⟨mp1, mp2⟩ := merge_props t qs _ hD hqs
+      rw [List.pairwise_append]
+      refine ⟨?_, ?_, ?_⟩
+      · apply List.Pairwise.imp_of_mem (R := fun _ _ => True)
+        · intro a b _ hb _ h; simp [(hA b hb).1] at h
+        · exact List.pairwise_of_forall (fun _ _ => trivial)
+      · rw [List.pairwise_cons]
+        exact ⟨fun b _ h => by simp [hq0] at h, ihh⟩
+      · intro a ha b hb h
+        obtain ⟨_, hbt, hlt⟩ := h
+        have had := (hA a ha).2
+        simp only [List.mem_cons] at hb
+        rcases hb with rfl | hb
+        · omega
+        · -- b timed in g: b ∈ qs, so q.due ≤ b.due
+          have : b ∈ qs := by
+            have : b ∈ (merge t qs (rl.dropWhile fun r => decide (q.due > r.due))).1.filter (fun x => !x.imm) := by
+              simp [List.mem_filter, hb, hbt]
+            rw [← mp2]; simp [this]
+          have := hs.1 b this; omega
+
 end Thr.EL
